@@ -189,6 +189,142 @@ fn check_year(y: i64, log: &mut Log) {
   }
 }
 
+type DayOracle = (Option<(i64, i64)>, Option<(i64, i64)>, Option<(i64, i64)>, (i64, i64), (i64, i64, i64));
+
+/// the five series on civil day n, re-derived from the term days of its year (the same derivation as in
+/// `check_year`, packaged for single days)
+fn oracle_of_day(n: i64) -> DayOracle {
+  let t = terms();
+  let (y, _, _) = cal().date(n);
+  let ws_prev = t.get(y, 0).dn;
+  let ws_this = t.get(y + 1, 0).dn;
+  let summer = t.get(y, 12).dn;
+  let autumn = t.get(y, 15).dn;
+  let grain = t.get(y, 11).dn;
+  let heat = t.get(y, 13).dn;
+  let stem = |n: i64| day_pillar(n) % 10;
+  let branch = |n: i64| day_pillar(n) % 12;
+  let g3 = summer + (6 - stem(summer)).rem_euclid(10) + 20;
+  let long_middle = g3 + 20 < autumn;
+  let plum_start = grain + (2 - stem(grain)).rem_euclid(10);
+  let plum_end = heat + (7 - branch(heat)).rem_euclid(12);
+  let nine = {
+    let w = if n >= ws_this { ws_this } else { ws_prev };
+    let d = n - w;
+    if d >= 0 && d < 81 {
+      Some((d / 9, d % 9))
+    } else {
+      None
+    }
+  };
+  let dog = {
+    let d = n - g3;
+    let mid = if long_middle { 20 } else { 10 };
+    if d < 0 {
+      None
+    } else if d < 10 {
+      Some((0, d))
+    } else if d < 10 + mid {
+      Some((1, d - 10))
+    } else if d < 20 + mid {
+      Some((2, d - 10 - mid))
+    } else {
+      None
+    }
+  };
+  let plum = if n < plum_start || n > plum_end {
+    None
+  } else if n == plum_end {
+    Some((1, 0))
+  } else {
+    Some((0, n - plum_start))
+  };
+  let gi = t.governing_day(n).unwrap();
+  let g = t.v[gi];
+  let d = n - g.dn;
+  let idx = (d / 5).min(2);
+  let pentad = (g.i * 3 + idx, d - 5 * idx);
+  let jie = if g.i % 2 == 1 { g } else { t.v[gi - 1] };
+  let k = (jie.i - 3).rem_euclid(24) / 2;
+  (nine, dog, plum, pentad, commanding(k, n - jie.dn))
+}
+
+/// histories: a single-thread sequence of 6..16 look-ups (a drawn subset of the five series each) on days related
+/// to the previous one: the same day, a few days / a month / half a year / a year away, the same month-day in a
+/// year differing by a cycle or a power of two or ten
+fn history(i: usize, cfg: &Cfg, log: &mut Log) {
+  let c = cal();
+  let mut rng = crate::util::Rng::new(crate::util::mix(cfg.seed, i as u64 ^ 0x1C15));
+  let len = rng.range(6, 16);
+  let (lo, hi) = (c.year_first(2), c.year_first(9999) - 1);
+  let mut n = crate::history::start_day(&mut rng).clamp(lo, hi);
+  let key = format!("seq{}_{}", i, cal::fmt_dn(n));
+  let mut trace: Vec<String> = vec![];
+  let r = guard(|| {
+    let mut out: Vec<(String, String)> = vec![];
+    let mut judged = 0u64;
+    for step in 0..len {
+      let want = oracle_of_day(n);
+      let mask = rng.range(1, 31);
+      trace.push(format!("{}/{:05b}", cal::fmt_dn(n), mask));
+      let sd = sd_of_dn(n);
+      let mut bad: Vec<String> = vec![];
+      if mask & 1 != 0 {
+        let ph = sd.get_phenology_day();
+        let ph = (ph.get_phenology().get_index() as i64, ph.get_day_index() as i64);
+        if ph != want.3 {
+          bad.push(format!("pentad {:?} (expected {:?})", ph, want.3));
+        }
+      }
+      if mask & 2 != 0 {
+        let hh = sd.get_hide_heaven_stem_day();
+        let hs = hh.get_hide_heaven_stem();
+        let hh = (hs.get_heaven_stem().get_index() as i64, kind_code(hs.get_type()), hh.get_day_index() as i64);
+        if hh != want.4 {
+          bad.push(format!("commanding stem {:?} (expected {:?})", hh, want.4));
+        }
+      }
+      if mask & 4 != 0 {
+        let nd = sd.get_nine_day().map(|x| (x.get_nine().get_index() as i64, x.get_day_index() as i64));
+        if nd != want.0 {
+          bad.push(format!("nine {:?} (expected {:?})", nd, want.0));
+        }
+      }
+      if mask & 8 != 0 {
+        let dd = sd.get_dog_day().map(|x| (x.get_dog().get_index() as i64, x.get_day_index() as i64));
+        if dd != want.1 {
+          bad.push(format!("dog {:?} (expected {:?})", dd, want.1));
+        }
+      }
+      if mask & 16 != 0 {
+        let pr = sd.get_plum_rain_day().map(|x| (x.get_plum_rain().get_index() as i64, x.get_day_index() as i64));
+        if pr != want.2 {
+          bad.push(format!("plum rain {:?} (expected {:?})", pr, want.2));
+        }
+      }
+      judged += (mask as u64).count_ones() as u64;
+      if !bad.is_empty() {
+        out.push((format!("step {} {}: {}", step, trace.join(" "), bad.join("; ")), "the series of that day".into()));
+        break;
+      }
+      n = crate::history::related_day(&mut rng, n).clamp(lo, hi);
+    }
+    (out, judged)
+  });
+  log.ev(1);
+  log.nt(1);
+  match r {
+    Ok((v, judged)) => {
+      log.count("history.sequences", 1);
+      log.count("history.answers_judged", judged);
+      if let Some((o, e)) = v.into_iter().next() {
+        log.violate(format!("C15/history/{}", key), "a sequence of series look-ups on related days on one thread", key.clone(), o, e);
+      }
+    }
+    Err(msg) => log.violate(format!("C15/panic-history/{}", key), "a sequence of series look-ups on related days on one thread", format!("{} {}", key, trace.join(" ")), format!("panic: {}", msg), "no panic".into()),
+  }
+}
+
 pub fn run(cfg: &Cfg) -> (Log, Meta) {
   crate::util::set_thread_cap(12);
   let mut log = Log::new();
@@ -213,6 +349,13 @@ pub fn run(cfg: &Cfg) -> (Log, Meta) {
     Tier::Quick => day_sample_years(cfg).into_iter().filter(|y| (2..=9998).contains(y)).collect(),
   };
   log.merge(par_range(years.len(), 1, |i, l| check_year(years[i], l)));
+  // the packaged oracle agrees with itself on a known day: 2024-07-15 is the first day of the first Dog period
+  if oracle_of_day(cal().dn(2024, 7, 15)).1 != Some((0, 0)) || oracle_of_day(cal().dn(2023, 12, 22)).0 != Some((0, 0)) {
+    log.harness_error("single-day oracle self-test failed");
+  }
+  let nh = cfg.tier.pick(30_000usize, 600_000usize);
+  log.merge(par_range(nh, 100, |i, l| history(i, cfg, l)));
+  log.floor("history.answers_judged", cfg.tier.pick(400_000, 8_000_000));
   log.floor("day.nine_days", cfg.tier.pick(4_000, 80_000));
   log.floor("day.dog_days", cfg.tier.pick(1_500, 30_000));
   log.floor("day.plum_rain_days", cfg.tier.pick(1_000, 20_000));
@@ -220,12 +363,13 @@ pub fn run(cfg: &Cfg) -> (Log, Meta) {
   log.floor("year.ten_day_middle_dog_period", cfg.tier.pick(10, 200));
   let meta = Meta {
     rule: format!(
-      "every civil date of {} years{}: Nine, Dog day, Plum rain, pentad and commanding stem (stem, kind, day index) read through the API and compared with an oracle that re-derives each series from the term days of the year and the pillar (N+49) mod 60. Non-trivial = days inside a Nine / Dog / Plum-rain period or opening a pentad or an allotment (counted); per-year edge configurations (20-day middle period, solstice on a Geng day, fifth Geng = start of autumn, Bing/Wei coincidences) are counted.",
+      "every civil date of {} years{}: Nine, Dog day, Plum rain, pentad and commanding stem (stem, kind, day index) read through the API and compared with an oracle that re-derives each series from the term days of the year and the pillar (N+49) mod 60; histories: {} seeded single-thread sequences of 6..16 look-ups (a drawn subset of the five series each) on days related to the previous one (same day, days / a month / half a year / a year away, same month-day in a year differing by a cycle, a power of two or ten or a digit). Non-trivial = days inside a Nine / Dog / Plum-rain period or opening a pentad or an allotment (counted); per-year edge configurations (20-day middle period, solstice on a Geng day, fifth Geng = start of autumn, Bing/Wei coincidences) are counted.",
       years.len(),
       match cfg.tier {
         Tier::Thorough => " (2..9998, exhaustive)",
         Tier::Quick => " (seed mod 20 plus the worst-case eras)",
-      }
+      },
+      nh
     ),
     assumptions: vec!["term days from the library (C05/C06); the allotment table is transcribed from the classical rule text, independently of the library's packed digit string".into()],
     exhaustive: cfg.tier == Tier::Thorough,
